@@ -213,6 +213,21 @@ def _check_world(case, vs, ls):
                     elif got == "NIE":
                         kind = "unexpected-NotImplementedError"
                     raise Violation(kind, f"{where}: got {got}, expected {exp}; links at v: {[(l,) + tuple(G.link[l]) for l in lk]}")
+    # omitted arguments: the documented defaults are FORWARD, LNK_UNKNOWN_ERROR and no filter
+    if case["f"] is None:
+        from edgegraph.traversal import helpers as _helpers
+
+        for v in range(len(vs)):
+            for d in (None,) + tuple(DIRS):
+                try:
+                    out = _helpers.neighbors(vs[v]) if d is None else _helpers.neighbors(vs[v], h.D(d))
+                    got = [vi.get(id(x), "?") if x is not None else None for x in out]
+                except NotImplementedError:
+                    got = "NIE"
+                exp = table[(v, FORWARD if d is None else d, ERROR)]
+                if got != exp:
+                    raise Violation("defaults-mismatch", f"neighbors(v{v}{'' if d is None else ', direction=%d' % d}) with the remaining arguments omitted gives {got}; with the documented defaults spelled out {exp}")
+        classes.add("arguments-omitted")
     # metamorphic duality FORWARD(v) <-> BACKWARD(w), no filter or edge-only filter
     if case["f"] is None or case["f"]["ft"] == "edge":
         for u in UNKS:
